@@ -67,14 +67,14 @@ func WorkerMain(p *Prop, tier Tier, seed int64, variant string, start, stride, n
 
 // Summary aggregates all worker results of a run.
 type Summary struct {
-	Prop     *Prop
-	Tier     Tier
-	Seed     int64
-	Results  []Result // sorted by (variant, idx)
-	Extra    []Violation          // violations added by Post
+	Prop          *Prop
+	Tier          Tier
+	Seed          int64
+	Results       []Result         // sorted by (variant, idx)
+	Extra         []Violation      // violations added by Post
 	ExtraCounters map[string]int64 // counters added by Post
 	RaceReports   []RaceReport
-	RunDir   string
+	RunDir        string
 }
 
 func (s *Summary) PostViolatef(kind, format string, args ...any) {
@@ -413,14 +413,14 @@ func collectRaceReports(runDir string) []RaceReport {
 // ---------------------------------------------------------------- verdict + evidence
 
 type witnessFile struct {
-	Property  string      `json:"property"`
-	Tier      Tier        `json:"tier"`
-	Seed      int64       `json:"seed"`
-	Idx       int         `json:"idx"`
-	Variant   string      `json:"variant"`
+	Property   string      `json:"property"`
+	Tier       Tier        `json:"tier"`
+	Seed       int64       `json:"seed"`
+	Idx        int         `json:"idx"`
+	Variant    string      `json:"variant"`
 	Violations []Violation `json:"violations"`
-	Sample    any         `json:"sample,omitempty"`
-	Replay    string      `json:"replay"`
+	Sample     any         `json:"sample,omitempty"`
+	Replay     string      `json:"replay"`
 }
 
 func finish(s *Summary, harnessErrs []string, wall time.Duration) int {
@@ -590,18 +590,18 @@ func finish(s *Summary, harnessErrs []string, wall time.Duration) int {
 		}
 	}
 	cov := map[string]any{
-		"slowest_cases":       slow,
-		"evaluations":         evals,
-		"distinct_nontrivial": len(distinct),
-		"rule":                p.Rule,
-		"samples":             samples,
-		"counters":            counters,
-		"distinct_values":     summariseSets(sets),
-		"cases_per_build":     perVariant,
-		"inconclusive_cases":  inconcl,
+		"slowest_cases":           slow,
+		"evaluations":             evals,
+		"distinct_nontrivial":     len(distinct),
+		"rule":                    p.Rule,
+		"samples":                 samples,
+		"counters":                counters,
+		"distinct_values":         summariseSets(sets),
+		"cases_per_build":         perVariant,
+		"inconclusive_cases":      inconcl,
 		"known_findings_observed": knownSeen,
-		"race_reports_dedup":  len(s.RaceReports),
-		"race_reports_in_repo": raceInRepo,
+		"race_reports_dedup":      len(s.RaceReports),
+		"race_reports_in_repo":    raceInRepo,
 	}
 	if p.Exhaustive {
 		cov["exhaustive"] = false // only sub-spaces are enumerated completely; see counters
